@@ -98,7 +98,8 @@ def make_wavefront(cfg, seed):
     if two:
         # "passed any planes": a second, narrower plane whose support starts at another row and column
         amp2 = rm.generic_real(shape, seed, tag=77, lo=0.5, hi=1.0)
-        amp2[-1, :] = 0
+        if shape[0] > 2:               # (a 2-row pupil keeps both rows: the product of the two supports must not be empty)
+            amp2[-1, :] = 0
         amp2[:, :2] = 0
         opd2 = rm.generic_real(shape, seed, tag=78, lo=-0.2, hi=0.2) * wl
         cls = lentil.Pupil if cfg['dir'] == 'p2i' else lentil.Image
